@@ -74,7 +74,6 @@ vpv_cell!(#[kani::stub(eval_filter_expr, stub_eval_filter_expr)] #[kani::stub(co
 vpv_cell!(#[kani::stub(eval_filter_expr, stub_eval_filter_expr)] #[kani::stub(collect_emitted_event, stub_collect_emitted_event)] #[kani::stub(call_user_function, stub_call_user_function)] c10_lit_mul_int_int, "C10/fold_binary/literal/Mul/Int-Int", (a: i64, b: i64), { check_fold_binary(BinOp::Mul, Expr::Int(a), Expr::Int(b)) });
 vpv_cell!(#[kani::stub(eval_filter_expr, stub_eval_filter_expr)] #[kani::stub(collect_emitted_event, stub_collect_emitted_event)] #[kani::stub(call_user_function, stub_call_user_function)] c10_lit_div_int_int, "C10/fold_binary/literal/Div/Int-Int", (a: i64, b: i64), { check_fold_binary(BinOp::Div, Expr::Int(a), Expr::Int(b)) });
 vpv_cell!(#[kani::stub(eval_filter_expr, stub_eval_filter_expr)] #[kani::stub(collect_emitted_event, stub_collect_emitted_event)] #[kani::stub(call_user_function, stub_call_user_function)] c10_lit_mod_int_int, "C10/fold_binary/literal/Mod/Int-Int", (a: i64, b: i64), { check_fold_binary(BinOp::Mod, Expr::Int(a), Expr::Int(b)) });
-vpv_cell!(#[kani::stub(eval_filter_expr, stub_eval_filter_expr)] #[kani::stub(collect_emitted_event, stub_collect_emitted_event)] #[kani::stub(call_user_function, stub_call_user_function)] c10_lit_pow_int_int, "C10/fold_binary/literal/Pow/Int-Int", (a: i64, b: i64), { check_fold_binary(BinOp::Pow, Expr::Int(a), Expr::Int(b)) });
 vpv_cell!(#[kani::stub(eval_filter_expr, stub_eval_filter_expr)] #[kani::stub(collect_emitted_event, stub_collect_emitted_event)] #[kani::stub(call_user_function, stub_call_user_function)] c10_lit_add_float_float, "C10/fold_binary/literal/Add/Float-Float", (a: f64, b: f64), { check_fold_binary(BinOp::Add, Expr::Float(a), Expr::Float(b)) });
 vpv_cell!(#[kani::stub(eval_filter_expr, stub_eval_filter_expr)] #[kani::stub(collect_emitted_event, stub_collect_emitted_event)] #[kani::stub(call_user_function, stub_call_user_function)] c10_lit_sub_float_float, "C10/fold_binary/literal/Sub/Float-Float", (a: f64, b: f64), { check_fold_binary(BinOp::Sub, Expr::Float(a), Expr::Float(b)) });
 vpv_cell!(#[kani::stub(eval_filter_expr, stub_eval_filter_expr)] #[kani::stub(collect_emitted_event, stub_collect_emitted_event)] #[kani::stub(call_user_function, stub_call_user_function)] c10_lit_mul_float_float, "C10/fold_binary/literal/Mul/Float-Float", (a: f64, b: f64), { check_fold_binary(BinOp::Mul, Expr::Float(a), Expr::Float(b)) });
@@ -127,4 +126,4 @@ vpv_cell!(#[kani::stub(eval_filter_expr, stub_eval_filter_expr)] #[kani::stub(co
 vpv_cell!(#[kani::stub(eval_filter_expr, stub_eval_filter_expr)] #[kani::stub(collect_emitted_event, stub_collect_emitted_event)] #[kani::stub(call_user_function, stub_call_user_function)] c10_neg_int, "C10/fold_unary/Neg/Int", (a: i64), { check_fold_unary(UnaryOp::Neg, Expr::Int(a)) });
 vpv_cell!(#[kani::stub(eval_filter_expr, stub_eval_filter_expr)] #[kani::stub(collect_emitted_event, stub_collect_emitted_event)] #[kani::stub(call_user_function, stub_call_user_function)] c10_neg_float, "C10/fold_unary/Neg/Float", (a: f64), { check_fold_unary(UnaryOp::Neg, Expr::Float(a)) });
 vpv_cell!(#[kani::stub(eval_filter_expr, stub_eval_filter_expr)] #[kani::stub(collect_emitted_event, stub_collect_emitted_event)] #[kani::stub(call_user_function, stub_call_user_function)] c10_not_bool, "C10/fold_unary/Not/Bool", (a: bool), { check_fold_unary(UnaryOp::Not, Expr::Bool(a)) });
-vpv_replay_table!(c10_lit_add_int_int, c10_lit_sub_int_int, c10_lit_mul_int_int, c10_lit_div_int_int, c10_lit_mod_int_int, c10_lit_pow_int_int, c10_lit_add_float_float, c10_lit_sub_float_float, c10_lit_mul_float_float, c10_lit_div_float_float, c10_lit_mod_float_float, c10_lit_pow_float_float, c10_lit_add_int_float, c10_lit_add_float_int, c10_lit_sub_int_float, c10_lit_sub_float_int, c10_lit_mul_int_float, c10_lit_mul_float_int, c10_lit_div_int_float, c10_lit_div_float_int, c10_id_mul_zero_r_float, c10_id_mul_zero_r_str, c10_id_mul_zero_r_bool, c10_id_mul_zero_r_null, c10_id_mul_zero_l_float, c10_id_mul_zero_l_str, c10_id_mul_zero_l_bool, c10_id_mul_zero_l_null, c10_id_mul_one_r_float, c10_id_mul_one_r_str, c10_id_mul_one_r_bool, c10_id_mul_one_r_null, c10_id_mul_one_l_float, c10_id_mul_one_l_str, c10_id_mul_one_l_bool, c10_id_mul_one_l_null, c10_id_add_zero_r_float, c10_id_add_zero_r_str, c10_id_add_zero_r_bool, c10_id_add_zero_r_null, c10_id_add_zero_l_float, c10_id_add_zero_l_str, c10_id_add_zero_l_bool, c10_id_add_zero_l_null, c10_id_sub_zero_r_float, c10_id_sub_zero_r_str, c10_id_sub_zero_r_bool, c10_id_sub_zero_r_null, c10_id_div_one_r_float, c10_id_div_one_r_str, c10_id_div_one_r_bool, c10_id_div_one_r_null, c10_passthrough_lt, c10_passthrough_eq, c10_passthrough_and, c10_neg_int, c10_neg_float, c10_not_bool);
+vpv_replay_table!(c10_lit_add_int_int, c10_lit_sub_int_int, c10_lit_mul_int_int, c10_lit_div_int_int, c10_lit_mod_int_int, c10_lit_add_float_float, c10_lit_sub_float_float, c10_lit_mul_float_float, c10_lit_div_float_float, c10_lit_mod_float_float, c10_lit_pow_float_float, c10_lit_add_int_float, c10_lit_add_float_int, c10_lit_sub_int_float, c10_lit_sub_float_int, c10_lit_mul_int_float, c10_lit_mul_float_int, c10_lit_div_int_float, c10_lit_div_float_int, c10_id_mul_zero_r_float, c10_id_mul_zero_r_str, c10_id_mul_zero_r_bool, c10_id_mul_zero_r_null, c10_id_mul_zero_l_float, c10_id_mul_zero_l_str, c10_id_mul_zero_l_bool, c10_id_mul_zero_l_null, c10_id_mul_one_r_float, c10_id_mul_one_r_str, c10_id_mul_one_r_bool, c10_id_mul_one_r_null, c10_id_mul_one_l_float, c10_id_mul_one_l_str, c10_id_mul_one_l_bool, c10_id_mul_one_l_null, c10_id_add_zero_r_float, c10_id_add_zero_r_str, c10_id_add_zero_r_bool, c10_id_add_zero_r_null, c10_id_add_zero_l_float, c10_id_add_zero_l_str, c10_id_add_zero_l_bool, c10_id_add_zero_l_null, c10_id_sub_zero_r_float, c10_id_sub_zero_r_str, c10_id_sub_zero_r_bool, c10_id_sub_zero_r_null, c10_id_div_one_r_float, c10_id_div_one_r_str, c10_id_div_one_r_bool, c10_id_div_one_r_null, c10_passthrough_lt, c10_passthrough_eq, c10_passthrough_and, c10_neg_int, c10_neg_float, c10_not_bool);
